@@ -202,7 +202,16 @@ pub fn build(r: &RawData) -> (Vec<Ln>, Shape) {
             if this_fault {
                 match &r.fault {
                     Fault::OutOfRange(_, high) => {
-                        let bad = if *high { hi + 1 + (line_no as i64 % 3) } else { lo - 1 - (line_no as i64 % 3) };
+                        // just beyond the end, or a legal value moved by the size of the field / a power of
+                        // two a truncating conversion would drop
+                        let far = [0i64, 0, 1 << 8, 1 << 16, 1 << 32, 1 << 40, (hi - lo + 1).max(1)][line_no % 7];
+                        let bad = if far == 0 {
+                            if *high { hi + 1 + (line_no as i64 % 3) } else { lo - 1 - (line_no as i64 % 3) }
+                        } else {
+                            let legal = [lo, -1, 0, 1, hi][(line_no / 7) % 5].clamp(lo, hi);
+                            let cand = if *high { legal.saturating_add(far) } else { legal.saturating_sub(far) };
+                            if cand >= lo && cand <= hi { if *high { hi + 1 } else { lo - 1 } } else { cand }
+                        };
                         let at = items.len() / 2;
                         items.insert(at, DItem::Ex(E::num(bad)));
                         shape.fault = "value-out-of-range";
